@@ -43,11 +43,12 @@ THEOREMS = [
     "Cppcheck.Suppress.reported_sound", "Cppcheck.Suppress.reported_duptext_counterexample",
     "Cppcheck.Suppress.reported_texts_fixed", "Cppcheck.Suppress.reported_texts",
     "Cppcheck.Suppress.nofail_does_not_hide", "Cppcheck.Suppress.line_semantics",
+    "Cppcheck.Suppress.addSuppression_exists_harmless", "Cppcheck.Suppress.addSuppression_block_dropped_counterexample",
     "Cppcheck.SuppressParse.parse_print", "Cppcheck.SuppressParse.strToInt_intToDec",
 ]
 MODULES = ["Cppcheck.Props.C23"]
 
-# Both defects this check found are repaired in /repo (1cf3800 matchglob, 9e24c55 duplicate filter; known_findings: kind
+# All three defects this check found are repaired in /repo (1cf3800 matchglob, 9e24c55 duplicate filter, f569efa isSameParameters; known_findings: kind
 # "fixed"): their input classes are ordinary violations again, no classifier key absorbs them.
 
 hx = core.hx
@@ -192,7 +193,7 @@ def glob_cases(rng, thorough):
 
 
 IDS = ["nullPointer", "uninitvar", "arrayIndexOutOfBounds", "memleak", "a-x", "unmatchedSuppression", "misra-c2012-10.4", "zerodiv", ""]
-FILES = ["a.c", "src/a.c", "src/b.h", "./a.c", "src/../a.c", "/abs/src/a.c", "b.c", "lib/x.cpp", "inc/b.h", ""]
+FILES = ["a.c", "src/a.c", "src/b.h", "./a.c", "src/../a.c", "/abs/src/a.c", "b.c", "lib/x.cpp", "inc/b.h", "src/lib/x.c", "lib/x.c", ""]
 SYMS = ["", "x", "arr", "x\ny", "arr\n", "ptr\nx\n", "\nq"]
 MACROS = [[], ["M"], ["M", "N"], ["N"]]
 
@@ -225,9 +226,26 @@ def id_pattern(rng, fid, exotic=True):
     return rng.choice(IDS) or "x"
 
 
+def respell(rng, ffile):
+    """a different spelling of the same file, or a proper path suffix of it (what an inline suppression is filed under when
+    several base paths are stripped): PathMatch bridges both"""
+    parts = [x for x in ffile.split("/") if x not in ("", ".")]
+    cands = []
+    if len(parts) > 1:
+        cands += ["/".join(parts[k:]) for k in range(1, len(parts))]
+        cands += [parts[0] + "/./" + "/".join(parts[1:]), parts[0] + "/../" + "/".join(parts)]
+    if ffile and not ffile.startswith("/"):
+        cands += ["./" + ffile, "x/../" + ffile]
+    if ffile.startswith("./"):
+        cands += [ffile[2:]]
+    return rng.choice(cands) if cands else ffile
+
+
 def file_pattern(rng, ffile):
     r = rng.random()
     base = ffile.split("/")[-1]
+    if ffile and rng.random() < 0.25:
+        return respell(rng, ffile)
     if r < 0.3:
         return ffile
     if r < 0.45:
@@ -250,8 +268,8 @@ def file_pattern(rng, ffile):
 
 
 def sup_fields(s):
-    return "%s %s %d %d %d %d %s %s %d %d" % (hx(s["id"]), hx(s["file"]), s["line"], s["lb"], s["le"], s["type"], hx(s["sym"]), hx(s["mac"]),
-                                           s["hash"], 1 if s["tanl"] else 0)
+    return "%s %s %d %d %d %d %s %s %d %d %d" % (hx(s["id"]), hx(s["file"]), s["line"], s["lb"], s["le"], s["type"], hx(s["sym"]), hx(s["mac"]),
+                                              s["hash"], 1 if s["tanl"] else 0, 1 if s.get("inl") else 0)
 
 
 def msg_fields(m):
@@ -267,7 +285,8 @@ def gen_msg(rng):
 def gen_sup_for(rng, m, exotic=True):
     """a suppression aimed at finding m, usually with one near-miss edit"""
     ty = rng.choice([0, 0, 0, 0, 1, 2, 2, 5, 5, 3, 4] if exotic else [0, 0, 0, 0, 1, 2, 2, 5])
-    s = dict(id=id_pattern(rng, m["id"], exotic), file=file_pattern(rng, m["file"]), line=-1, lb=-1, le=-1, type=ty, sym="", mac="", hash=0, tanl=False)
+    s = dict(id=id_pattern(rng, m["id"], exotic), file=file_pattern(rng, m["file"]), line=-1, lb=-1, le=-1, type=ty, sym="", mac="", hash=0, tanl=False,
+             inl=rng.random() < 0.4)      # isInline must not change which matcher is used for the file name
     L = m["line"]
     if ty == 0:
         s["line"] = rng.choice([L, L, L - 1, L + 1, -1, -1, L - 2])
@@ -414,7 +433,7 @@ def gen_xml(rng):
 
 # ---- gate ----------------------------------------------------------------------------------------------------------
 GIDS = [("a", "x"), ("a", "y"), ("misra", "c2012-10.4"), ("premium", "internalError"), ("b", "logChecker"), ("a", "nullPointer")]
-GFILES = ["a.c", "src/a.c", "./a.c", "b.h"]
+GFILES = ["a.c", "src/a.c", "./a.c", "b.h", "src/lib/x.c"]
 
 
 def gen_gate(rng, exotic=True):
@@ -590,6 +609,8 @@ def run_all(ctx, res):
         r = head(hi)
         res.count("is:" + r)
         res.count("type:%d" % s["type"])
+        if s.get("inl") and s["file"] and s["file"] != m["file"] and ("fm=" in hi) and hi.rstrip().endswith("=1"):
+            res.count("is:inline-respelled-file-pathmatch-true")
         if s["type"] in (3, 4):
             res.count("outside-premise:unpaired-begin-end")
             continue
@@ -626,7 +647,18 @@ def run_all(ctx, res):
             continue
         for a in mm.group(1).split(","):
             res.count("add:" + a)
-        added = [s for s, a in zip(ss, mm.group(1).split(",")) if a == "ok"]
+        added = []
+        for s, a in zip(ss, mm.group(1).split(",")):
+            if a == "ok":
+                added.append(s)
+            elif a == "exists":
+                same = lambda x, y: all(x[k] == y[k] for k in ("id", "file", "line", "sym", "hash", "tanl"))
+                full = lambda x, y: same(x, y) and all(x[k] == y[k] for k in ("type", "lb", "le", "mac"))
+                if not any(full(s, t) for t in added) and any(same(s, t) for t in added):
+                    res.violation("addSuppression rejects %s as 'already exists' although the list only holds %s, which matches different findings" %
+                                  (s, [t for t in added if same(s, t)][0]),
+                                  dict(kind="ls", global_=g, supprs=ss, msgs=ms, modes=modes, index=-1, real="exists", documented="distinct suppression"),
+                                  concrete=True, key=None)
         if any(s["type"] in (3, 4) for s in added):
             res.count("outside-premise:unpaired-begin-end")
             continue
@@ -694,6 +726,7 @@ def run_all(ctx, res):
     t0 = time.time()
     # ---- CLI: inline suppressions -----------------------------------------------------------------------------------
     cli_cases(ctx, res, drv, corpus, thorough)
+    cli_rp_cases(ctx, res, corpus, thorough)
     res.extra["cli_s"] = round(time.time() - t0, 1)
 
     # ---- violation search when something above is broken but no failing input is known yet ---------------------
@@ -911,6 +944,16 @@ def cli_cases(ctx, res, drv, corpus, thorough, generate=True):
                           dict(kind="cli", cli=c, extra=sorted(extra)), concrete=True, key=None)
     res.traces_validated += nf
     res.extra["cli_findings_judged"] = nf
+    w = corpus.get("cli_blockdup")
+    if w:
+        d = os.path.join(ctx.tmp, "cliblk")
+        os.makedirs(d, exist_ok=True)
+        open(os.path.join(d, "a.c"), "w").write(w["source"])
+        rc, out, err = core.sh([exe, "-q", "--inline-suppr", "--template={file}:{line}:{id}", "a.c"], cwd=d, timeout=120)
+        if "a.c:%d:%s" % (w["line"], w["id"]) in err:
+            res.violation("cppcheck --inline-suppr reports %s on line %d, which lies inside a cppcheck-suppress-begin/-end block for that id: the block suppression "
+                          "was dropped as 'already exists' because a plain cppcheck-suppress comment for the same id precedes the begin comment" % (w["id"], w["line"]),
+                          dict(kind="cli-blockdup", witness=w, stderr=err), concrete=True, key=None)
     # template-without-line witness of the duplicate filter finding through the real binary
     w = corpus.get("cli_duptext")
     if w:
@@ -925,6 +968,93 @@ def cli_cases(ctx, res, drv, corpus, thorough, generate=True):
 
 
 # ---------------------------------------------------------------------------------------------------------------
+
+def gen_rp_project(rng, k):
+    """directory tree with nested directory names (d1/, d2/, d1/d2/): with several -rp base paths the inline suppression of
+    d1/d2/x.c is filed under a shorter name than the finding is reported under.  Every planted line number is unique."""
+    d1, d2 = rng.sample(["src", "lib", "inc", "app"], 2)
+    files, plan = {}, []
+    line0 = 0
+    for rel in (d1 + "/a.c", d2 + "/b.c", d1 + "/" + d2 + "/x.c", d1 + "/" + d2 + "/" + d1 + "/y.c"):
+        L = []
+        def add(t):
+            L.append(t)
+            return len(L)
+        filesup = rng.random() < 0.15
+        if filesup:
+            add("// cppcheck-suppress-file zerodiv")
+        for _ in range(line0):
+            add("// pad")
+        line0 += rng.choice([9, 14, 23])
+        add("void f%d_%d(int x) {" % (k, len(files)))
+        add("    int a[2] = {0, 0};")
+        for _ in range(rng.choice([2, 3, 4])):
+            fid, stmt = rng.choice([("arrayIndexOutOfBounds", "a[%d] = x;" % rng.choice([2, 3, 5])), ("zerodiv", "x = x / 0;")])
+            mode = rng.choice(["none", "none", "same", "prev", "block", "wrongid", "multi"])
+            sup = False
+            if mode == "none":
+                ln = add("    " + stmt)
+            elif mode == "same":
+                ln = add("    %s // cppcheck-suppress %s" % (stmt, fid)); sup = True
+            elif mode == "prev":
+                add("    // cppcheck-suppress %s" % fid); ln = add("    " + stmt); sup = True
+            elif mode == "block":
+                add("    // cppcheck-suppress-begin %s" % fid); add("    x++;"); ln = add("    " + stmt); add("    // cppcheck-suppress-end %s" % fid); sup = True
+            elif mode == "wrongid":
+                add("    // cppcheck-suppress %s" % ("zerodiv" if fid != "zerodiv" else "arrayIndexOutOfBounds")); ln = add("    " + stmt)
+            else:
+                add("    // cppcheck-suppress[zerodiv, arrayIndexOutOfBounds]"); ln = add("    " + stmt); sup = True
+            plan.append(dict(file=rel, line=ln, id=fid, suppressed=sup or (filesup and fid == "zerodiv"), why="rp-" + mode))
+        add("    (void)a; (void)x;")
+        add("}")
+        files[rel] = "\n".join(L) + "\n"
+    return dict(files=files, plan=plan, d1=d1, d2=d2)
+
+
+def cli_rp_cases(ctx, res, corpus, thorough, generate=True):
+    """--inline-suppr together with -rp (one / several / nested / absolute base paths) and -j2: an inline suppression applies
+    to the file it is written in, however that file is spelled after the base paths were stripped"""
+    rng = ctx.rng
+    exe = ctx.cppcheck
+    projects = [c["rp"] for c in corpus.get("cli_rp", [])] + ([gen_rp_project(rng, k) for k in range(12 if thorough else 2)] if generate else [])
+    judged = 0
+    for k, pr in enumerate(projects):
+        d = os.path.join(ctx.tmp, "rp%d" % k)
+        for rel, text in pr["files"].items():
+            os.makedirs(os.path.join(d, os.path.dirname(rel)), exist_ok=True)
+            open(os.path.join(d, rel), "w").write(text)
+        d1, d2 = pr["d1"], pr["d2"]
+        variants = [["-rp=" + d1], ["-rp=%s;%s" % (d1, d2)], ["-rp=%s;%s" % (d2, d1)], ["-rp"], ["-rp=%s;%s" % (os.path.join(d, d1), os.path.join(d, d2))],
+                    ["-rp=%s;%s" % (d1, d2), "-j2"], ["-rp=%s;%s;%s/%s" % (d1, d2, d1, d2), "-j2", "--executor=thread"]]
+        if not thorough and generate:
+            variants = [variants[1], variants[5], rng.choice(variants)]
+        for var in variants:
+            base = [exe, "-q", "--template={file}:{line}:{id}"] + var + [d1, d2]
+            def run(extra):
+                rc, out, err = core.sh(base[:1] + extra + base[1:], cwd=d, timeout=180)
+                got = set()
+                for l in err.split("\n"):
+                    m = re.match(r"^(.+):(\d+):(\w+)$", l.strip())
+                    if m:
+                        got.add((int(m.group(2)), m.group(3)))
+                return got
+            ref, got = run([]), run(["--inline-suppr"])
+            if not set((p["line"], p["id"]) for p in pr["plan"]) <= ref:
+                res.count("cli-rp:plan-not-realised")
+                continue
+            for p in pr["plan"]:
+                judged += 1
+                rep = (p["line"], p["id"]) in got
+                res.case("cli-rp|%s|%s|%s" % (pr["files"][p["file"]], p, var), True, dict(tie="cli-rp", args=" ".join(var), finding="%s:%d:%s" % (p["file"], p["line"], p["id"]), reported=rep) if judged % 53 == 1 else None)
+                res.count("cli:" + p["why"])
+                if rep == p["suppressed"]:
+                    res.violation("cppcheck --inline-suppr %s: finding %s:%d %s is %s but the inline comment in that file says it is %s (form %s)" %
+                                  (" ".join(var), p["file"], p["line"], p["id"], "reported" if rep else "hidden", "suppressed" if p["suppressed"] else "not suppressed", p["why"]),
+                                  dict(kind="cli-rp", rp=pr, args=var, finding=[p["file"], p["line"], p["id"]], real_reported=rep, documented_suppressed=p["suppressed"]),
+                                  concrete=True, key=None)
+    res.traces_validated += judged
+    res.extra["cli_rp_findings_judged"] = judged
+
 
 def search(ctx, res, exe, drv):
     """an obligation is broken and nothing concrete was found: evaluate P_impl on a wider neighbourhood"""
@@ -1009,10 +1139,16 @@ def replay(ctx, res, rp):
         print("real : %s\nmodel: %s" % (hi[0], mo[0]))
         want = "back=ok %s %s %d %s %d" % (hx(e), hx(f), ln, hx(sy), 1 if po else 0)
         bad = 1 if head(hi[0]) != head(mo[0]) or (tail_fields(mo[0]).get("printable") == "1" and head(hi[0]).split(" ", 1)[1] != want) else 0
-    elif kind in ("cli", "cli-duptext"):
+    elif kind in ("cli", "cli-duptext", "cli-blockdup"):
         res2 = core.Result(ctx, res.level)
-        corpus = dict(cli=[dict(cli=rp["cli"])]) if kind == "cli" else dict(cli_duptext=rp["witness"])
+        corpus = dict(cli=[dict(cli=rp["cli"])]) if kind == "cli" else (dict(cli_duptext=rp["witness"]) if kind == "cli-duptext" else dict(cli_blockdup=rp["witness"]))
         cli_cases(ctx, res2, drv, corpus, False, generate=False)
+        for v in res2.violations:
+            print(v["what"][:500])
+        bad = 1 if res2.violations else 0
+    elif kind == "cli-rp":
+        res2 = core.Result(ctx, res.level)
+        cli_rp_cases(ctx, res2, dict(cli_rp=[dict(rp=rp["rp"])]), True, generate=False)
         for v in res2.violations:
             print(v["what"][:500])
         bad = 1 if res2.violations else 0
